@@ -2969,14 +2969,6 @@ let rec equation_symbols_go equation code terms symbols functions =
   | [] -> Ret symbols
   | t :: rest ->
     (match t.ttype with
-     | TFunction ->
-       let sym = { sname = (Some t.tname); stype = TFunction; slags =
-         t.tindex; sleads = t.tindex; sequation = None; scode = None }
-       in
-       if mem_string t.tname functions
-       then equation_symbols_go equation code rest symbols functions
-       else equation_symbols_go equation code rest
-              (dict_set t.tname sym symbols) (t.tname :: functions)
      | TVerbatim -> equation_symbols_go equation code rest symbols functions
      | x ->
        let sym =
@@ -3523,6 +3515,7 @@ type chk_res =
 | ChkSyntaxWarning
 | ChkOtherWarning of nat
 | ChkOtherExn
+| ChkCaughtExn
 
 type verdict =
 | VFine
